@@ -131,3 +131,89 @@ proof fn lemma_went_facts(n: &ParseState, o: &ParseState)
 {
     reveal(went);
 }
+// ---- static text: the pieces parse_next_entity returns (unit NEXTENT defines ent_value / ent_len; opaque here) ----
+uninterp spec fn ent_value(t: Seq<char>) -> Seq<char>;
+uninterp spec fn ent_len(t: Seq<char>) -> int;
+/// ASSUMED here, PROVED in unit NEXTENT (with automatic whitespace skipping off): one reference or one character is
+/// consumed and its decoded value returned; diagnostics are only appended; something is consumed unless at the end
+#[verifier::external_body]
+fn vx_next_entity(ps: &mut ParseState) -> (r: String)
+    requires old(ps).wf(),
+    ensures
+        went(final(ps), old(ps)),
+        r@ == ent_value(old(ps).src().skip(old(ps).idx@)),
+        final(ps).idx@ == old(ps).idx@ + ent_len(old(ps).src().skip(old(ps).idx@)),
+        old(ps).idx@ < old(ps).src().len() ==> ent_len(old(ps).src().skip(old(ps).idx@)) >= 1,
+{ unimplemented!() }
+// ---- parse_until_before ----
+/// the text from a to b decoded reference by reference (the steps parse_next_entity takes)
+spec fn dec_text(src: Seq<char>, a: int, b: int) -> Seq<char>
+    decreases b - a,
+{
+    if a >= b || a < 0 || a >= src.len() { Seq::empty() } else {
+        let n = ent_len(src.skip(a));
+        if n <= 0 { Seq::empty() } else if a + n >= b { ent_value(src.skip(a)) } else { ent_value(src.skip(a)) + dec_text(src, a + n, b) }
+    }
+}
+/// b is reached from a by whole steps
+spec fn reach(src: Seq<char>, a: int, b: int) -> bool
+    decreases b - a,
+{
+    if a == b { true } else if a > b || a < 0 || a >= src.len() { false } else {
+        let n = ent_len(src.skip(a));
+        if n <= 0 || a + n > b { false } else { reach(src, a + n, b) }
+    }
+}
+proof fn lemma_dec_step(src: Seq<char>, a: int, b: int)
+    requires reach(src, a, b), 0 <= a <= b, b < src.len(), ent_len(src.skip(b)) >= 1,
+    ensures
+        reach(src, a, b + ent_len(src.skip(b))),
+        dec_text(src, a, b + ent_len(src.skip(b))) == dec_text(src, a, b) + ent_value(src.skip(b)),
+    decreases b - a,
+{
+    let n = ent_len(src.skip(b));
+    let x = ent_value(src.skip(b));
+    if a == b {
+        assert(dec_text(src, a, b) =~= Seq::<char>::empty());
+        assert(reach(src, b + n, b + n));
+        assert(dec_text(src, b, b + n) == x);
+        assert(Seq::<char>::empty() + x =~= x);
+    } else {
+        let m = ent_len(src.skip(a));
+        let y = ent_value(src.skip(a));
+        lemma_dec_step(src, a + m, b);
+        if a + m >= b {
+            assert(a + m == b);
+            assert(dec_text(src, a, b) == y);
+            assert(dec_text(src, b, b + n) == x);
+            assert(dec_text(src, a, b + n) == y + dec_text(src, a + m, b + n));
+        } else {
+            assert(y + (dec_text(src, a + m, b) + x) =~= (y + dec_text(src, a + m, b)) + x);
+        }
+    }
+}
+/// the shape the tail must have while static text is being appended to it
+spec fn tail_text(e: Expression) -> bool { e matches Expression::Plus { right, .. } && *right is LitStr }
+/// what parse_until_before guarantees about its value at every loop head
+spec fn val_inv(v: Value, tail: bool) -> bool {
+    match v {
+        Value::Static { location, .. } => pos_le(location.start, location.end) && !tail,
+        Value::Dynamic { expression, .. } => tail ==> tail_text(*expression),
+    }
+}
+spec fn same_state(a: &ParseState, b: &ParseState) -> bool {
+    a.whole_str == b.whole_str && a.idx@ == b.idx@ && a.line == b.line && a.utf16_col == b.utf16_col && a.auto@ == b.auto@ && a.warnings@ == b.warnings@
+}
+/// after the stop tests of the text loop (`until`, `ended`, `peek_str` with automatic skipping off) the cursor is where it was
+proof fn lemma_same_or_peek(a: &ParseState, b: &ParseState)
+    requires a.wf(), a.auto@ == 0, (same_state(b, a) && b.wf()) || b.moved_to(a, a.idx@),
+    ensures went(b, a), b.idx@ == a.idx@, b.warnings@ == a.warnings@, b.wf(), b.auto@ == 0, b.whole_str == a.whole_str, b.line == a.line, b.utf16_col == a.utf16_col,
+{
+    if same_state(b, a) && b.wf() {
+        assert(a.warnings@.is_prefix_of(b.warnings@));
+        lemma_same_place(a, b);
+    } else {
+        lemma_moved_went(a, b, a.idx@);
+        assert(a.src().subrange(a.idx@, a.idx@) =~= Seq::<char>::empty());
+    }
+}
